@@ -32,7 +32,7 @@ Proof. exact init_Inv. Qed.
 Print Assumptions C01_init_invariant_partial.
 
 Theorem C01_consume_in_bounds_partial : forall s req r s',
-  Inv s -> ffatal s = false -> plain (cl s) -> consume s req = (r, s') ->
+  Inv s -> ffatal s = false -> skippable (cl s) -> consume s req = (r, s') ->
   Inv s' /\ (r = req \/ r = ARCHIVE_FATAL).
 Proof. exact consume_in_bounds. Qed.
 Print Assumptions C01_consume_in_bounds_partial.
